@@ -538,7 +538,7 @@ fn strip_principal(v: &anda_kip::Json) -> anda_kip::Json {
 pub fn run(r: &mut Runner) {
     r.assume("R(p) is observed: the principal asks for each element by id (with its state) in the world that holds everything; a refused command reads nothing");
     r.assume("both worlds are built by the same script through owner KML and the host control plane; responses are compared after renaming element ids through the script's labels and normalising RFC 3339 timestamps, transaction ids and *seq numbers (order-only, relative to the transactions the reader can see), snapshot tokens and content digests");
-    r.assume("the listed findings K1-K6, K8, K9 are excluded by construction or attributed and counted exactly as described in the sub-check rules (K1: reference-closed readable sets; K2/K3/K6: two-layer SEARCH comparison; K4: historical coordinates at which a now-unreadable element was readable are not compared; K5/K8: HISTORY ELEMENT / writes / PREVIEW KML are aimed at readable or never-assigned ids only; K9: the subset relation to a delegator that a policy statement denies is counted, not asserted; K11: what a re-delegate keeps while the intermediate delegator of its chain is suspended / revoked is counted, not asserted, everything else about that step is); a deny of `read` naming the observed reader is generated without a resource scope, delegations run from lower to higher principals (no cycles); validity windows are years away from the wall clock (expired / not yet valid / covering), the live expiry transition is not covered");
+    r.assume("the listed findings K1-K6, K8, K9 are excluded by construction or attributed and counted exactly as described in the sub-check rules (K1: reference-closed readable sets; K2/K3/K6: two-layer SEARCH comparison; K4: historical coordinates at which a now-unreadable element was readable are not compared; K5/K8: HISTORY ELEMENT / writes / PREVIEW KML are aimed at readable or never-assigned ids only; K9: the subset relation to a delegator that a policy statement denies is counted, not asserted; K11 (repaired in /repo, listed as fixed): a re-delegate holds nothing while the intermediate delegator of its chain is suspended / revoked - asserted, since the entry is no longer `known`); a deny of `read` naming the observed reader is generated without a resource scope, delegations run from lower to higher principals (no cycles); validity windows are years away from the wall clock (expired / not yet valid / covering), the live expiry transition is not covered");
     r.set_case_timeout_ms(180_000);
     r.sub_enum(
         "known_findings",
